@@ -744,10 +744,22 @@ def rule_copy(ctx, px):
     )
     f = px.func(GEN_MOD, "SupportGenerator._copy_header_using_line_pps")
     n = 0
-    for st, gd in pyfront.walk_guarded(f.node.body):
-        if not isinstance(st, ast.Assign) or not isinstance(st.value, ast.Tuple) or len(st.value.elts) != 2:
-            continue
-        e0, e1 = st.value.elts
+    # the splitting of a line into text and terminator may live in private methods the copy calls (a splitter that returns the pair, a
+    # generator that yields it): the pair is judged where it is built
+    unit_ = [f]
+    for g_ in unit_:
+        for c_ in ast.walk(g_.node):
+            if isinstance(c_, ast.Call) and isinstance(c_.func, ast.Attribute) and isinstance(c_.func.value, ast.Name) and c_.func.value.id in ("self", "cls") \
+                    and f.cls is not None and c_.func.attr in f.cls.methods and c_.func.attr.startswith("_") and f.cls.methods[c_.func.attr] not in unit_ and len(unit_) < 5:
+                unit_.append(f.cls.methods[c_.func.attr])
+    pairs = []
+    for g_ in unit_:
+        for st, gd in pyfront.walk_guarded(g_.node.body):
+            v_ = st.value if isinstance(st, (ast.Assign, ast.Return)) else (st.value.value if isinstance(st, ast.Expr) and isinstance(st.value, ast.Yield) else None)
+            if isinstance(v_, ast.Tuple) and len(v_.elts) == 2:
+                pairs.append((st, gd, v_))
+    for st, gd, v_ in pairs:
+        e0, e1 = v_.elts
         if not (isinstance(e0, ast.Subscript) and isinstance(e0.slice, ast.Slice) and e0.slice.upper is not None):
             if isinstance(e1, ast.Constant) and e1.value == "":
                 n += 1
